@@ -718,11 +718,13 @@ func (obj *SparseFloat64Matrix) JointIterator(b ConstMatrix) MatrixJointIterator
 }
 func (obj *SparseFloat64Matrix) ITERATOR() *SparseFloat64MatrixIterator {
   r := SparseFloat64MatrixIterator{*obj.values.ITERATOR(), obj}
+  r.skipOutside()
   return &r
 }
 func (obj *SparseFloat64Matrix) ITERATOR_FROM(i, j int) *SparseFloat64MatrixIterator {
   k := obj.index(i, j)
   r := SparseFloat64MatrixIterator{*obj.values.ITERATOR_FROM(k), obj}
+  r.skipOutside()
   return &r
 }
 func (obj *SparseFloat64Matrix) JOINT_ITERATOR(b ConstMatrix) *SparseFloat64MatrixJointIterator {
@@ -743,6 +745,20 @@ type SparseFloat64MatrixIterator struct {
 }
 func (obj *SparseFloat64MatrixIterator) Index() (int, int) {
   return obj.m.ij(obj.SparseFloat64VectorIterator.Index())
+}
+func (obj *SparseFloat64MatrixIterator) Next() {
+  obj.SparseFloat64VectorIterator.Next()
+  obj.skipOutside()
+}
+// the underlying vector also holds the entries of the parent matrix that lie
+// outside a sub-matrix view: skip them
+func (obj *SparseFloat64MatrixIterator) skipOutside() {
+  for obj.SparseFloat64VectorIterator.Ok() {
+    if i, j := obj.Index(); i >= 0 && i < obj.m.rows && j >= 0 && j < obj.m.cols {
+      return
+    }
+    obj.SparseFloat64VectorIterator.Next()
+  }
 }
 func (obj *SparseFloat64MatrixIterator) Clone() *SparseFloat64MatrixIterator {
   return &SparseFloat64MatrixIterator{*obj.SparseFloat64VectorIterator.Clone(), obj.m}
